@@ -13,6 +13,7 @@ TEncOK(ev) ==
   /\ IF p.proto \notin Protocols THEN TRUE                       \* the property quantifies over supported protocol ids
      ELSE IF InfoSize(p) > MaxInfo THEN ~ev.ok                         \* "encoding either fails with an error ..."
      ELSE /\ ev.ok
+          /\ ("tlfok" \in DOMAIN ev) => ev.tlfok                   \* the returned slice is the frame's total-length field; bytes in front of the frame are untouched
           /\ LET fr == MkIn(ev.frame)  r == Parse(fr) IN
              /\ r.ok                                               \* "... or produces a frame that follows the layout"
              /\ fr.len = MetaSize + InfoSize(p)
